@@ -269,7 +269,7 @@ def run(ctx):
     ctx.assumptions = ['tolerances: conservation/range 1e-6 N, monotonicity 1e-7 N, initial values 1e-9 N, wrapper-vs-direct 1e-6 N',
                        'documented positions of auxiliary series are taken from the docstrings where wrapper and solver agree; '
                        'for SIR_heterogeneous_meanfield (contradictory docstrings) only the presence of the S_k series is required']
-    per = 40 if quick else 400
+    per = 60 if quick else 400
     only = getattr(ctx, 'only', None)
     for nm in names:
         if only and nm not in only:
